@@ -156,6 +156,15 @@ def run_property(pid, tier, seed):
         for orc in cfg["oracles"]:
             for what in orc(c, lo):
                 failures.append({"case": c.id, "kind": c.kind, "what": what})
+    # a decision where the implementation accepts and the (proved) model does not is a concrete
+    # failing input: the theorems state when the model accepts
+    for d in diffs:
+        if d["name"].startswith(tuple(cfg.get("accept_diffs", ()))) and cfg.get("accept_diffs") \
+                and d["lib"] == "accept" and d["model"] in ("reject", "refused"):
+            c = by_id[d["case"]]
+            failures.append({"case": c.id, "kind": c.kind,
+                             "what": "%s %s: implementation accepts where the proved model answers %s (%s)"
+                                     % (c.meta.get("scheme", c.kind), d["name"], d["model"], " ".join(c.fields.get(d["name"], []))[:80])})
     reported_cases = set()
     for f in failures:
         k = matches_known(pid, f, known)
